@@ -173,6 +173,25 @@ def binding_case(args):
                                               "p1 = f.partial(%s=...); p1.partial(...) (discarded); p1(rest) hashes to %s, expected %s"
                                               % (first, h[:12], want_hash[:12]), art))
                     return out
+        # a keyword given at call time overrides the value a keyword partial bound to the same parameter
+        if not out["violations"]:
+            for first in params:
+                if fname == "fkw" and first in kwonly:
+                    continue
+                p1 = f.partial(**{first: "bound-by-the-partial"})
+                out["evaluations"] += 1
+                out["transitions"] += 1
+                try:
+                    pos = [p for p in params if p not in kwonly and p != first and params.index(p) < params.index(first)]
+                    fra = p1.fn_reference().with_args(*[binding[p] for p in pos], **{p: binding[p] for p in params if p not in pos})
+                    h = fra.arg_hash
+                except Exception as e:
+                    h = "EXC:%r" % (e,)
+                if h != want_hash:
+                    out["violations"].append(("%s|call-keyword-does-not-override-partial" % fname,
+                                              "f.partial(%s=other)(..., %s=value) hashes to %s, the binding with the call-time value to %s"
+                                              % (first, first, h[:12], want_hash[:12]), art))
+                    return out
         # a reference keeps a snapshot of its arguments: changing a list / dict afterwards, in the caller's hands, changes
         # neither the key nor the arguments that will be recorded
         if not out["violations"]:
